@@ -266,6 +266,9 @@ func (c *originCtx) addrBase(v ssa.Value, d int) *Org {
 func (c *originCtx) load(x *ssa.UnOp, d int) *Org {
 	switch a := x.X.(type) {
 	case *ssa.Alloc:
+		if v := sameBlockStore(a, x); v != nil {
+			return c.origin(v, d+1)
+		}
 		return c.allocContent(a, x, d)
 	case *ssa.FreeVar:
 		o := c.origin(a, d+1)
@@ -718,4 +721,38 @@ func (o *Org) mentions(pred func(*Org) bool, d int) bool {
 		}
 	}
 	return false
+}
+
+// sameBlockStore: flow-sensitive refinement for the defer-spilled result idiom
+// (`*slot = v; rundefers; t = *slot; return t`): the last store to the cell earlier in the
+// load's own block, provided nothing in between can write the cell (no call except
+// rundefers, and the cell is not captured by a closure).
+func sameBlockStore(a *ssa.Alloc, ld *ssa.UnOp) ssa.Value {
+	for _, r := range *a.Referrers() {
+		if _, ok := r.(*ssa.MakeClosure); ok {
+			return nil
+		}
+	}
+	b := ld.Block()
+	var last ssa.Value
+	for _, in := range b.Instrs {
+		if in == ssa.Instruction(ld) {
+			return last
+		}
+		switch x := in.(type) {
+		case *ssa.Store:
+			if x.Addr == ssa.Value(a) {
+				last = x.Val
+			}
+		case *ssa.RunDefers:
+		case ssa.CallInstruction:
+			// a call that receives the address could write it
+			for _, arg := range x.Common().Args {
+				if arg == ssa.Value(a) {
+					last = nil
+				}
+			}
+		}
+	}
+	return nil
 }
